@@ -186,6 +186,9 @@ def checkC14 (steps : List Step) : Option (Nat × String) := Id.run do
     return some (0, s!"state timeouts {X.mappingTimeouts}: idle must have none, active states a non-zero one of at most 30 s")
   let mut s : Seen := {}
   let mut idx := 0
+  -- the inactivity deadline as the SPECIFICATION tracks it: armed (now + 30 s) by mapping_reset_inactive_timeout — which the
+  -- glue calls for every received frame — and disarmed only by the tick that acts on it; nothing else may disarm it
+  let mut inactSpec : List (Nat × Nat) := []
   for st in steps do
     let s0 := noteKind s st.op
     let s' := absorb s0 st.out
@@ -211,6 +214,10 @@ def checkC14 (steps : List Step) : Option (Nat × String) := Id.run do
             | none => 0
           if !holdsC14Tick preM.inactTs (s.clock / 1000) postF postM live then
             return some (idx, s!"tick past the inactivity deadline {preM.inactTs} at {s.clock / 1000} s left state={postF.state} ctc={postM.ctc} charge={postM.chargeTs} inact={postM.inactTs} live sessions={live}")
+          let dl := (inactSpec.lookup M).getD 0
+          if !holdsC14Tick dl (s.clock / 1000) postF postM live then
+            return some (idx, s!"tick at {s.clock / 1000} s: the last frame armed the inactivity deadline {dl} and nothing but the tick may disarm it, yet the tick left state={postF.state} ctc={postM.ctc} inact={postM.inactTs} live sessions={live} (record says deadline {preM.inactTs})")
+          if dl ≠ 0 ∧ s.clock / 1000 ≥ dl then inactSpec := upd inactSpec M 0
         | _, _, _ => pure ()
       | none => pure ()
     | ["map", "resetinact", a] =>
@@ -220,7 +227,18 @@ def checkC14 (steps : List Step) : Option (Nat × String) := Id.run do
         | some postM =>
           if !holdsC14Deadline (s.clock / 1000) postM then
             return some (idx, s!"mapping_reset_inactive_timeout at {s.clock / 1000} s set the deadline to {postM.inactTs}")
+          inactSpec := upd inactSpec A (s.clock / 1000 + 30)
         | none => pure ()
+      | none => pure ()
+    | "map" :: "set" :: a :: _ =>
+      match parseDec a with
+      | some A => match s'.map.lookup A with
+        | some postM => inactSpec := upd inactSpec A postM.inactTs       -- a direct field write of the test script
+        | none => pure ()
+      | none => pure ()
+    | ["fsm", "new", a, "map"] =>
+      match parseDec a with
+      | some A => inactSpec := upd inactSpec A 0
       | none => pure ()
     | _ => pure ()
     s := noteInput s' st.op
